@@ -24,7 +24,7 @@ RULE = (
 ASSUMPTIONS = ["reference tree validated against plain h5py (C01 selfcheck)",
                "not asserted: byte identity of merged vs. source files; skeleton patch indices of the merged manifest"]
 REQUIRED_CLASSES = {"all": ["followup_ge1", "source_ge3_containers", "mf_record", "plain_record",
-                            "merge_refused_uncommitted", "stub_merge_refused", "second_generation_merge"]}
+                            "merge_refused_uncommitted", "stub_merge_refused", "second_generation_merge", "cross_class_merge"]}
 BUDGET_S = {"quick": 900, "thorough": 3 * 3600}
 NSHARD = 16
 
@@ -70,6 +70,20 @@ def run_case(case, rec=None):
             raise Violation("C05:refused-merge-left-files", sorted(set(r2) ^ set(before_dir)), "no new files")
         r.commit_patch()
         sess.verify("before merge")
+        merge_cls = case.get("merge_cls")
+        if merge_cls and merge_cls != cls_name:
+            # documented: an IH5MFRecord is a valid IH5Record, and an IH5Record can be opened as IH5MFRecord
+            files_all = [str(p) for p in r.ih5_files]
+            r.close()
+            cls = H.IH5Record if merge_cls == "IH5Record" else H.IH5MFRecord
+            try:
+                r = cls([Path(f) for f in files_all], "r")
+            except Exception as e:  # noqa: BLE001
+                H.close_leaked_h5()
+                raise Violation("C05:record-does-not-open-as-other-class", f"{cls_name} files as {merge_cls}: {type(e).__name__}: {e}", "opens")
+            t.rec = r
+            t.cls = cls
+            classes.add("cross_class_merge")
         meta_before = recutil.meta_dicts(r)
         files_before = [str(p) for p in r.ih5_files]
         dig_before = recutil.dir_digest(d)
@@ -87,6 +101,18 @@ def run_case(case, rec=None):
         exp_new = ["merged.ih5"] + (["merged.ih5mf.json"] if cls is H.IH5MFRecord else [])
         if new != sorted(exp_new):
             raise Violation("C05:merge-created-unexpected-files", new, exp_new)
+        # merging onto an existing record (itself / the merged one) is refused and changes nothing
+        for existing in ("src", "merged"):
+            try:
+                r.merge_files(Path(d) / existing)
+            except Exception:  # noqa: BLE001
+                pass
+            else:
+                raise Violation("C05:merge-onto-existing-record-accepted", existing, "refused (target exists)")
+            now = recutil.dir_digest(d)
+            if now != dig_after:
+                ch = sorted(n for n in set(now) | set(dig_after) if now.get(n) != dig_after.get(n))
+                raise Violation("C05:refused-merge-changed-files", f"merge onto '{existing}': {ch}", "nothing changes")
         meta_after = recutil.meta_dicts(r)
         if meta_after != meta_before:
             diff = [k for a, b in zip(meta_before, meta_after) for k in a if a[k] != b.get(k)]
@@ -114,9 +140,11 @@ def run_case(case, rec=None):
                 raise Violation("C05:merged-ublock:no-hash", mm[0], "hash present")
         finally:
             m.close()
-        if cls is H.IH5MFRecord:
+        if cls is H.IH5MFRecord and "ih5mf_v01" in (meta_before[-1].get("ub_exts") or {}):
             recutil.check_manifest_matches(merged_file, "C05")
             classes.add("mf_record")
+        elif cls is H.IH5MFRecord:
+            classes.add("mf_merge_of_plain_record")  # the source has no manifest, neither has the merged container
         else:
             classes.add("plain_record")
         # also by name
@@ -193,7 +221,7 @@ def run_case(case, rec=None):
         if len(files_before) >= 3:
             classes.add("source_ge3_containers")
         # 5. a record containing a stub refuses to merge (IH5MF only)
-        if cls is H.IH5MFRecord and case.get("stub", True):
+        if cls is H.IH5MFRecord and case.get("stub", True) and os.path.exists(recutil.manifest_path(r.ih5_files[-1])):
             sd = os.path.join(d, "stubdir")
             os.makedirs(sd)
             stub = H.IH5MFRecord.create_stub(os.path.join(sd, "stub"), Path(recutil.manifest_path(r.ih5_files[-1])))
@@ -225,8 +253,9 @@ def run_shard(shard, tier, seed, rec):
     n = {"quick": 40, "thorough": 1200}[tier]
     cls_name = "IH5Record" if i % 2 == 0 else "IH5MFRecord"
     fu = st.lists(H.histories(1, 8, boundary_weight=0), min_size=0, max_size=3)
-    strat = st.builds(lambda h, f: dict(history=h, followups=f, cls=cls_name),
-                      H.histories(2, 25 if tier == "quick" else 50, boundary_weight=2), fu)
+    strat = st.builds(lambda h, f, mc: dict(history=h, followups=f if mc is None else [], cls=cls_name, merge_cls=mc),
+                      H.histories(2, 25 if tier == "quick" else 50, boundary_weight=2), fu,
+                      st.sampled_from([None, None, None, "IH5Record", "IH5MFRecord"]))
     hyp.search(strat, lambda c: run_case(c, rec), rec, seed=seed * 1000 + i, max_examples=n,
                shrink_budget_s=25 if tier == "quick" else 120)
 
